@@ -139,9 +139,7 @@ def load_findings(pid):
     return [f for f in data.get("findings", []) if f.get("property") == pid]
 
 
-def finding_matches(f, kind, key) -> bool:
-    if f.get("status") != "open":
-        return False
+def _match_one(f, kind, key) -> bool:
     if f.get("kind") != kind:
         return False
     if "key" in f:
@@ -151,6 +149,16 @@ def finding_matches(f, kind, key) -> bool:
     if "key_regex" in f:
         return re.fullmatch(f["key_regex"], key) is not None
     return False
+
+
+def finding_matches(f, kind, key) -> bool:
+    """An open finding lists the specific (failure kind, input / call site / history)
+    pairs it covers, either inline or as a list under "match"."""
+    if f.get("status") != "open":
+        return False
+    if "match" in f:
+        return any(_match_one(m, kind, key) for m in f["match"])
+    return _match_one(f, kind, key)
 
 
 # ------------------------------------------------------------------ reporter
